@@ -366,7 +366,14 @@ let child_keys = ["aa"; "bb"]
 let check_kids inp obs0 =
   let fd, fg, obs = split_probe obs0 in
   let toks = split_ws inp in
-  let toks = (match toks with "U" :: r -> r | l -> l) in
+  let cstate = (match toks with "cstate" :: _ -> true | _ -> false) in
+  let toks = (match toks with "U" :: r -> r | "cstate" :: r -> r | l -> l) in
+  (* `cstate`: the same steps through storage.TrieState, plus StoreTrie / TrieState(root) / restart:
+     stored.(j) = root under which Go handle j was stored; tries: root -> first handle stored under it
+     (the database); cache: root -> (handle, rebuilt from the database?) (the Tries map of the session) *)
+  let stored : (int, string) Hashtbl.t = Hashtbl.create 8 in
+  let tries : (string, int) Hashtbl.t = Hashtbl.create 8 in
+  let cache : (string, int * bool) Hashtbl.t = Hashtbl.create 8 in
   let main : int list ref = ref [0] in                      (* Go handle -> model handle (reversed) *)
   let mi j = List.nth (List.rev !main) j in
   let kids : (int * string, int) Hashtbl.t = Hashtbl.create 8 in
@@ -414,6 +421,28 @@ let check_kids inp obs0 =
   let st0, o0 = observe_all init_state in
   Buffer.add_string buf (String.concat "/" ("init" :: o0));
   let kinds = ref [] in
+  (* Snapshot() of Go handle j: the main trie shares its root, every child trie gets a copy of its
+     root and the parent's version; [loaded]: the source was rebuilt from the database with NewTrie
+     (version V0), so the snapshot and its child tries are V0 tries (set here, outside the model) *)
+  let snapshot st j loaded =
+    let m = mi j in
+    let (st1, res, e) = run st [c (Snap (nat_of_int m))] in
+    if res <> ROk then (st1, res, e) else begin
+      let nj = List.length !main in
+      let nmain = nh st1 - 1 in
+      main := nmain :: !main;
+      let v1 = (if loaded then false else (handle st1 m).h_v1) in
+      let st1 = (if loaded then
+        { st1 with s_hs = List.mapi (fun i hd -> if i = nmain then { hd with h_v1 = false } else hd) st1.s_hs }
+        else st1) in
+      List.fold_left (fun (st, res, e) ck ->
+        match Hashtbl.find_opt kids (j, ck) with
+        | Some ci when res = ROk ->
+          tag "child-snapshot";
+          let (st2, res2, _) = run st [SnapCopy (nat_of_int ci, v1)] in
+          Hashtbl.replace kids (nj, ck) (nh st2 - 1);
+          (st2, res2, e)
+        | _ -> (st, res, e)) (st1, res, e) child_keys end in
   let rec go st prev k = function
     | [] -> ()
     | tok :: r ->
@@ -427,23 +456,36 @@ let check_kids inp obs0 =
       let resstr = ref "ok" in
       let (st1, res, extra) =
         (match tok.[0], f with
-         | 's', [_] ->
-           snapsrc := j; tag "snapshot";
-           let (st1, res, e) = run st [c (Snap nm)] in
-           if res <> ROk then (st1, res, e) else begin
-             let nj = List.length !main in
-             main := (nh st1 - 1) :: !main;
-             List.fold_left (fun (st, res, e) ck ->
-               match Hashtbl.find_opt kids (j, ck) with
-               | Some ci when res = ROk ->
-                 tag "child-snapshot";
-                 let (st2, res2, _) = run st [SnapCopy (nat_of_int ci, (handle st m).h_v1)] in
-                 Hashtbl.replace kids (nj, ck) (nh st2 - 1);
-                 (st2, res2, e)
-               | _ -> (st, res, e)) (st1, res, e) child_keys end
+         | 's', [_] -> snapsrc := j; tag "snapshot"; snapshot st j false
+         | 'S', [_] when cstate ->
+           tag "state-store";
+           let root = hex_of_bytes (root_hash st m) in
+           if not (Hashtbl.mem tries root) then Hashtbl.add tries root j;
+           if not (Hashtbl.mem cache root) then Hashtbl.add cache root (j, false);
+           Hashtbl.replace stored j root;
+           run st (c (HashOp nm) :: c (Commit nm) :: List.filter_map (fun ck ->
+             match Hashtbl.find_opt kids (j, ck) with Some ci -> Some (c (Commit (nat_of_int ci))) | None -> None) child_keys)
+         | 'R', [_] when cstate -> tag "state-restart"; Hashtbl.reset cache; (st, ROk, None)
+         | 'T', [_] when cstate ->
+           let root = (try Hashtbl.find stored j with Not_found -> fail "C03 cstate: T of an unstored handle") in
+           let (sj, loaded) =
+             (match Hashtbl.find_opt cache root with
+              | Some x -> x
+              | None -> let sj = Hashtbl.find tries root in Hashtbl.add cache root (sj, true); (sj, true)) in
+           if loaded then tag "state-reload-from-db";
+           if hex_of_bytes (root_hash st (mi sj)) <> root then (st, RPanic, None)
+           else begin
+             snapsrc := sj; tag "state-block";
+             let (st1, res, e) = run st [c (HashOp (nat_of_int (mi sj)))] in
+             if res <> ROk then (st1, res, e) else snapshot st1 sj loaded end
          | 'p', [_; ky; v] -> target := j; tag "put"; run st [c (Put (nm, bytes_of_hex ky, bytes_of_hex v))]
          | 'd', [_; ky] -> target := j; tag "delete"; run st [c (Del (nm, bytes_of_hex ky))]
-         | 'c', [_; p] -> target := j; tag "clearprefix"; run st [c (Clear (nm, bytes_of_hex p))]
+         | 'c', [_; p] ->
+           target := j; tag "clearprefix";
+           let pb = bytes_of_hex p and cs = bytes_of_string ":child_storage:" in
+           let rec pre a b = (match a, b with [], _ -> true | x :: a', y :: b' -> x = y && pre a' b' | _ :: _, [] -> false) in
+           if cstate && (pre pb cs || pre cs pb) then (st, ROk, None)   (* TrieState.ClearPrefix refuses it *)
+           else run st [c (Clear (nm, pb))]
          | 'l', [_; p; l] -> target := j; tag "clearprefixlimit"; run st [Y (ClearLimit (nm, bytes_of_hex p, n_of_hex l))]
          | 'v', [_; v] -> tag (if v = "1" then "setversion-v1" else "setversion-v0"); run st [c (SetVer (nm, v = "1"))]
          | 'w', [_] ->
@@ -507,14 +549,14 @@ let check_kids inp obs0 =
   let why = isolation_pred ~frozen ~model_panic_at:!panic_at (Array.of_list (List.rev !kinds)) obs in
   let prop_ok = (why = "") in
   let model_eq = (model = obs) in
-  let nsnap = List.length (List.filter (fun t -> t.[0] = 's') toks) in
+  let nsnap = List.length (List.filter (fun t -> t.[0] = 's' || t.[0] = 'T') toks) in
   let mut_after_snap =
     let rec f seen = function
       | [] -> false
-      | t :: r -> if t.[0] = 's' then f true r else (seen && String.contains "pdclPEK" t.[0]) || f seen r in
+      | t :: r -> if t.[0] = 's' || t.[0] = 'T' then f true r else (seen && String.contains "pdclPEK" t.[0]) || f seen r in
     f false toks in
   let tags = String.concat "," (
-    ("child-tries" :: List.sort compare !tagl) @ [Printf.sprintf "handles-%d" (1 + nsnap)]
+    ((if cstate then "cstate-harness" else "child-tries") :: List.sort compare !tagl) @ [Printf.sprintf "handles-%d" (1 + nsnap)]
     @ (if frozen then ["frozen-parents"] else ["parent-mutated"])
     @ (if !panic_at >= 0 then ["version-regress-panic"] else [])) in
   { prop_ok; model_eq; nontrivial = (nsnap >= 1 && mut_after_snap); finding = "-"; tags;
@@ -640,7 +682,7 @@ let has_child_ops inp =
 
 let check inp obs =
   if String.length inp >= 5 && String.sub inp 0 5 = "state" then check_state inp obs
-  else if has_child_ops inp then check_kids inp obs
+  else if (String.length inp >= 6 && String.sub inp 0 6 = "cstate") || has_child_ops inp then check_kids inp obs
   else check_main inp obs
 
 (* ---------- vm_compute cross-check (coq/C03/VmCheck.v) ----------
@@ -675,7 +717,8 @@ let coq_view (o : string) : string option =
     Some (Printf.sprintf "(%s, %s)" (coq_bytes (bytes_of_hex h)) (coq_list ents))
 
 let coq inp obs0 =
-  if (String.length inp >= 5 && String.sub inp 0 5 = "state") || has_child_ops inp then None else
+  if (String.length inp >= 5 && String.sub inp 0 5 = "state") || has_child_ops inp
+     || (String.length inp >= 6 && String.sub inp 0 6 = "cstate") then None else
   let fd, fg, obs = split_probe obs0 in
   let toks = split_ws inp in
   if toks = [] || List.hd toks = "U" then None else
